@@ -312,7 +312,8 @@ def freeze(a, name=None):
 # --------------------------------------------------------------------- ndarray
 def _cidx(i, n, what="index"):
     """bounds-check a (possibly symbolic) index against length n, return concrete non-negative index"""
-    core.EX.stats.bounds_checks += 1
+    if core.EX is not None:
+        core.EX.stats.bounds_checks += 1
     if isinstance(i, (SInt, SBool)):
         if isinstance(i, SBool):
             i = i._n()
